@@ -252,6 +252,9 @@ def branch_target(i):
     return None
 
 
+_DEBUG_RUNS = [0]
+
+
 def transpile_and_monitor(sub, debug):
     """Transpile `sub` in place. Returns (new_sub, error or None, stats)."""
     from netqasm.lang.instr.base import DebugInstruction
@@ -344,7 +347,11 @@ def transpile_and_monitor(sub, debug):
             return new_sub, f"the debug listing cannot be instantiated and serialised the way the SDK commits a subroutine: {type(e).__name__}: {str(e)[:120]}", {}
         if raw != bytes(new_sub):
             return new_sub, "instantiating the debug listing (no template to fill in) changed its bytes", {}
-        new_sub = deserialize(raw, flavour=codec.flavour_obj("nv"))
+        _DEBUG_RUNS[0] += 1
+        if _DEBUG_RUNS[0] % 2:
+            new_sub = deserialize(raw, flavour=codec.flavour_obj("nv"))
+        # (every other debug listing is executed as the object the transpiler returned, comments and all: its branch targets
+        # count the comments, and the executor steps over them)
     return new_sub, None, {"branches": nbr, "expanded": bool(expanded)}
 
 
